@@ -152,7 +152,7 @@ type checkEnv struct {
 
 func (e *checkEnv) runWorker(args ...string) ([]line, string, error) {
 	cmd := exec.Command(e.worker, args...)
-	cmd.Env = append(os.Environ(), "GOMAXPROCS=1", "KAPSIM_DATA="+filepath.Join(e.scratch, "data", strconv.Itoa(int(time.Now().UnixNano()%1e9))+"-"+strconv.Itoa(os.Getpid())))
+	cmd.Env = append(os.Environ(), "KAPSIM_KNOWN="+filepath.Join(e.verif, "known_findings.json"), "GOMAXPROCS=1", "KAPSIM_DATA="+filepath.Join(e.scratch, "data", strconv.Itoa(int(time.Now().UnixNano()%1e9))+"-"+strconv.Itoa(os.Getpid())))
 	var stderr bytes.Buffer
 	cmd.Stderr = &stderr
 	out, err := cmd.StdoutPipe()
@@ -720,7 +720,7 @@ func (e *checkEnv) selftest(n int) (int, bool) {
 				defer wg.Done()
 				defer func() { <-sem }()
 				cmd := exec.Command(e.worker, "run", "-prop", e.prop, "-tier", e.tier, "-seed", strconv.FormatUint(e.seed^0x5E1F, 10), "-from", strconv.Itoa(i), "-n", "1", "-outdir", e.faildir)
-				cmd.Env = append(os.Environ(), "KAPSIM_PROCS="+procs[p], "KAPSIM_DATA="+filepath.Join(e.scratch, "data", fmt.Sprintf("st-%d-%d", i, p)))
+				cmd.Env = append(os.Environ(), "KAPSIM_KNOWN="+filepath.Join(e.verif, "known_findings.json"), "KAPSIM_PROCS="+procs[p], "KAPSIM_DATA="+filepath.Join(e.scratch, "data", fmt.Sprintf("st-%d-%d", i, p)))
 				out, err := cmd.Output()
 				if err != nil {
 					results[i].err = err
